@@ -858,6 +858,13 @@ func unop(i *interpreter, instr *ssa.UnOp, x value) value {
 			return mkInt(k, -u)
 		}
 	case token.MUL:
+		if sr, ok := x.(symref); ok {
+			v, ok := symIndex(i, func(k int) value { return sr.cells[k] }, len(sr.cells), sr.idx)
+			if !ok {
+				panic("symref: cells changed shape")
+			}
+			return v
+		}
 		p := x.(*value)
 		if p == nil {
 			i.rtPanic("invalid memory address or nil pointer dereference")
@@ -1099,6 +1106,32 @@ func (it *stringIter) next(i *interpreter) tuple {
 
 // decodeRune decodes the first rune of cells (which may be symbolic),
 // forking on byte classes as utf8.DecodeRune would branch.
+// encodeRuneSym is string(rune(x)) for a symbolic integer: the UTF-8 length is
+// decided (forking at most over the five encoding classes), the bytes are terms.
+func encodeRuneSym(i *interpreter, s sym) value {
+	ts := i.ts
+	r := ts.Resize(s.t, 64, kindSigned(s.k))
+	c := func(v uint64) *Term { return ts.Const(64, v) }
+	lt := func(v uint64) bool { return i.ps.decide(ts.Cmp("bvult", r, c(v))) } // unsigned: negative values are huge
+	b8 := func(t *Term) value { return valOf(ts.Resize(t, 8, false), types.Uint8) }
+	shr := func(n uint64) *Term { return ts.Bin("bvlshr", r, c(n)) }
+	low6 := func(t *Term) *Term { return ts.Bin("bvor", c(0x80), ts.Bin("bvand", t, c(0x3F))) }
+	switch {
+	case lt(0x80):
+		return mkStr([]value{b8(r)})
+	case lt(0x800):
+		return mkStr([]value{b8(ts.Bin("bvor", c(0xC0), shr(6))), b8(low6(r))})
+	case lt(0x10000):
+		if i.ps.decide(ts.And(ts.Cmp("bvule", c(0xD800), r), ts.Cmp("bvule", r, c(0xDFFF)))) {
+			return "\uFFFD"
+		}
+		return mkStr([]value{b8(ts.Bin("bvor", c(0xE0), shr(12))), b8(low6(shr(6))), b8(low6(r))})
+	case lt(0x110000):
+		return mkStr([]value{b8(ts.Bin("bvor", c(0xF0), shr(18))), b8(low6(shr(12))), b8(low6(shr(6))), b8(low6(r))})
+	}
+	return "\uFFFD"
+}
+
 func decodeRune(i *interpreter, cells []value) (value, int) {
 	allc := true
 	lim := len(cells)
@@ -1243,6 +1276,10 @@ func conv(i *interpreter, t_dst, t_src types.Type, x value) value {
 			xs := x.([]value)
 			var out []value
 			for _, r := range xs {
+				if sr, ok := r.(sym); ok {
+					out = append(out, strCells(encodeRuneSym(i, sr))...)
+					continue
+				}
 				rv := i.asIntC(r)
 				for _, b := range []byte(string(rune(rv))) {
 					out = append(out, b)
@@ -1297,8 +1334,7 @@ func conv(i *interpreter, t_dst, t_src types.Type, x value) value {
 		if s, ok := x.(sym); ok {
 			switch {
 			case dk == types.String:
-				v := i.ps.concretize(s.t)
-				return string(rune(sext(v, s.t.sort)))
+				return encodeRuneSym(i, s)
 			case isIntKind(dk):
 				return valOf(i.ts.Resize(s.t, kindWidth(dk), kindSigned(s.k)), dk)
 			case dk == types.Float64 || dk == types.Float32:
